@@ -311,14 +311,76 @@ func init() {
 				return []Obligation{anchorMissing("LOC.synthesized-calls", "lisp.SExpr / LVal.source")}
 			}
 			var obs []Obligation
+			type unit struct {
+				body   *ast.BlockStmt
+				u      FuncUnit
+				values map[types.Object]bool // parameters that receive an evaluated value
+			}
+			var units []unit
+			seenUnit := map[*types.Func]bool{}
 			for _, e := range c.Registry() {
 				if rel(e.Pkg.PkgPath) != "lisp" || e.Kind != "op" {
 					continue
 				}
 				body, u, _, ok := c.BodyOf(e)
-				if !ok || u.Decl == nil {
+				if !ok || u.Decl == nil || seenUnit[u.Obj] {
 					continue
 				}
+				seenUnit[u.Obj] = true
+				units = append(units, unit{body, u, map[types.Object]bool{}})
+			}
+			// helpers (one level) that an operator hands an evaluated value to
+			for i := 0; i < len(units); i++ {
+				un := units[i]
+				if len(un.values) > 0 {
+					continue // already a helper
+				}
+				info := un.u.Pkg.TypesInfo
+				vals := map[types.Object]bool{}
+				ast.Inspect(un.body, func(n ast.Node) bool {
+					if as, ok := n.(*ast.AssignStmt); ok && len(as.Lhs) == len(as.Rhs) {
+						for j, r := range as.Rhs {
+							if ce, ok := ast.Unparen(r).(*ast.CallExpr); ok {
+								if se, ok := ast.Unparen(ce.Fun).(*ast.SelectorExpr); ok && se.Sel.Name == "Eval" {
+									if o := identObj(info, as.Lhs[j]); o != nil {
+										vals[o] = true
+									}
+								}
+							}
+						}
+					}
+					return true
+				})
+				ast.Inspect(un.body, func(n ast.Node) bool {
+					ce, ok := n.(*ast.CallExpr)
+					if !ok {
+						return true
+					}
+					fn := originOf(Callee(info, ce))
+					if fn == nil || fn.Pkg() != un.u.Obj.Pkg() || seenUnit[fn] {
+						return true
+					}
+					fd := c.declOf[fn]
+					if fd == nil || fd.Body == nil {
+						return true
+					}
+					hu := FuncUnit{fn, fd, c.pkgOf[fd]}
+					ps := paramObjs(hu)
+					hv := map[types.Object]bool{}
+					for k, a := range ce.Args {
+						if o := identObj(info, a); o != nil && vals[o] && k < len(ps) {
+							hv[ps[k]] = true
+						}
+					}
+					if len(hv) > 0 {
+						seenUnit[fn] = true
+						units = append(units, unit{fd.Body, hu, hv})
+					}
+					return true
+				})
+			}
+			for _, un := range units {
+				body, u := un.body, un.u
 				info := u.Pkg.TypesInfo
 				ord := &ordinal{}
 				// locals defined by SExpr(...) and those that got a source
@@ -342,6 +404,53 @@ func init() {
 									sourced[o] = true
 								}
 							}
+						}
+					}
+					return true
+				})
+				// a location must come from a form the user wrote (an argument of the operator),
+				// never from a VALUE the operator obtained by evaluation (its .source is where the
+				// value was defined, e.g. a function's defun)
+				evalVals := map[types.Object]bool{}
+				for o := range un.values {
+					evalVals[o] = true
+				}
+				ast.Inspect(body, func(n ast.Node) bool {
+					if as, ok := n.(*ast.AssignStmt); ok && len(as.Lhs) == len(as.Rhs) {
+						for i, r := range as.Rhs {
+							if ce, ok := ast.Unparen(r).(*ast.CallExpr); ok {
+								if se, ok := ast.Unparen(ce.Fun).(*ast.SelectorExpr); ok && se.Sel.Name == "Eval" {
+									if tv, ok := info.Types[se.X]; ok && strings.HasSuffix(tv.Type.String(), "lisp.LEnv") {
+										if o := identObj(info, as.Lhs[i]); o != nil {
+											evalVals[o] = true
+										}
+									}
+								}
+							}
+						}
+					}
+					return true
+				})
+				ast.Inspect(body, func(n ast.Node) bool {
+					as, ok := n.(*ast.AssignStmt)
+					if !ok || len(as.Lhs) != len(as.Rhs) {
+						return true
+					}
+					for i, r := range as.Rhs {
+						rse, ok := ast.Unparen(r).(*ast.SelectorExpr)
+						if !ok || FieldOfSelector(info, rse) != srcFld {
+							continue
+						}
+						// only stores that set a location: x.source = ... or env.loc = ...
+						lse, ok := ast.Unparen(as.Lhs[i]).(*ast.SelectorExpr)
+						if !ok || (lse.Sel.Name != "source" && lse.Sel.Name != "loc") {
+							continue
+						}
+						construct := ord.next("location taken from " + types.ExprString(rse))
+						if o := identObj(info, rse.X); o != nil && evalVals[o] {
+							obs = append(obs, mkOb(c, "LOC.synthesized-calls", u, construct, as, Violated, "`"+types.ExprString(as.Lhs[i])+" = "+types.ExprString(rse)+"` takes the location of an evaluated VALUE: for a function given by name that is its definition site, so the call's frame and errors point at the defun instead of at the form in this operator's arguments", true))
+						} else {
+							obs = append(obs, mkOb(c, "LOC.synthesized-calls", u, construct, as, Proved, "the location comes from a form of the operator's own arguments", false))
 						}
 					}
 					return true
@@ -494,6 +603,68 @@ func init() {
 			}
 			if n == 0 {
 				obs = append(obs, mkOb(c, "TRACE.stack-before-pop", u, "error edge of the callee result", fd, Undecided, "no `r.Type == LError` test on the result of env.call found", false))
+			}
+			return obs
+		}})
+}
+
+func init() {
+	register(&Rule{ID: "STAMP.before-copy", Floor: 1,
+		Doc: "in macroCall the expansion is stamped with the call site BEFORE its root is copied for the lazy unquote: the stampMacroExpansion call dominates every shallowUnquote of the expansion, and the value handed to markMacExpand is the stamped object or a copy taken after the stamp — a copy taken earlier would be the form that is actually evaluated and it would carry no position (a cons/list-built expansion then blames an enclosing form)",
+		Run: func(c *Ctx) []Obligation {
+			fn, fd, pkg := c.LookupFunc("lisp.(*LEnv).macroCall")
+			stamp := c.LookupPkgFunc("lisp.stampMacroExpansion")
+			unq := c.LookupPkgFunc("lisp.shallowUnquote")
+			mark := c.LookupPkgFunc("lisp.markMacExpand")
+			if fn == nil || stamp == nil || unq == nil || mark == nil {
+				return []Obligation{anchorMissing("STAMP.before-copy", "macroCall / stampMacroExpansion / shallowUnquote / markMacExpand")}
+			}
+			u := FuncUnit{fn, fd, pkg}
+			info := pkg.TypesInfo
+			fc := c.cfgOf(u, nil)
+			var stampLoc Loc
+			var stamped types.Object
+			haveStamp := false
+			var copies []struct {
+				loc Loc
+				ce  *ast.CallExpr
+			}
+			for _, b := range fc.G.Blocks {
+				if !fc.Live(b) {
+					continue
+				}
+				for i, n := range b.Nodes {
+					for _, ce := range callsIn(n, false) {
+						switch originOf(Callee(info, ce)) {
+						case stamp:
+							stampLoc, haveStamp = Loc{b, i}, true
+							if len(ce.Args) > 0 {
+								stamped = identObj(info, ce.Args[0])
+							}
+						case unq:
+							copies = append(copies, struct {
+								loc Loc
+								ce  *ast.CallExpr
+							}{Loc{b, i}, ce})
+						}
+					}
+				}
+			}
+			var obs []Obligation
+			if !haveStamp || stamped == nil {
+				return []Obligation{mkOb(c, "STAMP.before-copy", u, "stamp", fd, Violated, "macroCall no longer stamps the expansion with the call site", true)}
+			}
+			ord := &ordinal{}
+			for _, cp := range copies {
+				construct := ord.next("copy of the expansion root")
+				if len(cp.ce.Args) == 1 && identObj(info, cp.ce.Args[0]) == stamped && fc.Dominates(stampLoc, cp.loc) {
+					obs = append(obs, mkOb(c, "STAMP.before-copy", u, construct, cp.ce, Proved, "taken from the stamped value, after the stamp", true))
+				} else {
+					obs = append(obs, mkOb(c, "STAMP.before-copy", u, construct, cp.ce, Violated, "the root of the expansion is copied before (or independently of) the call-site stamp: the copy is the form that gets evaluated and it carries no position, so an error in a cons/list-built expansion is blamed on an enclosing form", true))
+				}
+			}
+			if len(copies) == 0 {
+				obs = append(obs, mkOb(c, "STAMP.before-copy", u, "copy of the expansion root", fd, Proved, "no copy is taken: the stamped value itself is handed on", false))
 			}
 			return obs
 		}})
